@@ -129,6 +129,14 @@ def check_tree(res, t, names, sub):
         case = {"names": names, "text": text, "sub": sub}
         res["evaluations"] += 1
         try:
+            if sub == "D":
+                # the raw (not post-processed) tree handed out for this text is resolved by the caller against these detections
+                # first, as validators do; the tree obtained afterwards through .parsed must not be affected by that
+                try:
+                    raw = SigmaCondition(text, dets).parse(False)
+                    raw.postprocess(dets)
+                except SigmaError:
+                    pass
             parsed = SigmaCondition(text, dets).parsed
         except SigmaError as e:
             cls = token_class(text, names)
